@@ -103,6 +103,31 @@ def run(res, tier, seed):
                     res.violation("oracle", bad["problem"] + f" on {m!r} d1={d1} d2={d2}", bad)
             cases.append((lambda it, fresh=fresh, d1=d1, assumed=assumed: f"({dict_term(d1, it)}, {dump(fresh, it)}, {dump(assumed, it)})", (ast, d1, d2)))
             res.sample({"model": repr(m), "d1": {k: list(v) for k, v in d1.items()}, "d2": {k: list(v) for k, v in d2.items()}, "assumed": repr(assumed)})
+    # a counting node over a sub-proposition and an integer leaf: the assumption decides the sub-proposition, the later
+    # interpretation gives the leaf a value of 2 or more (one operand may count for several)
+    for _ in range(50 if tier == "quick" else 600):
+        x, y, t, z = rng.sample(list("abcdefg"), 4)
+        sub = {"k": rng.choice(["Any", "All", "Xor"]), "ch": [{"k": "str", "id": x}, {"k": "str", "id": y}], "id": rng.choice(["B", None])}
+        leaf = {"k": "var", "id": t, "b": [rng.choice([0, -1]), rng.choice([2, 3, 4])]}
+        ch = [sub, leaf] + ([{"k": "str", "id": z}] if rng.random() < 0.4 else [])
+        k = rng.choice(["All", "All", "AtLeast", "AtMost"])
+        top = {"k": k, "ch": ch, "id": rng.choice(["A", None])}
+        if k in ("AtLeast", "AtMost"): top["v"] = rng.randint(1, 3)
+        if k == "AtLeast": top["s"] = None
+        ast = top if rng.random() < 0.6 else {"k": rng.choice(["Any", "Imply"]), "ch": [top, {"k": "str", "id": "h"}], "id": None}
+        d1 = {x: (rng.choice([0, 1]),) * 2, y: (rng.choice([0, 1]),) * 2}
+        d2 = {t: (rng.choice([2, leaf["b"][1]]),) * 2, z: (rng.choice([0, 1]),) * 2, "h": (rng.choice([0, 1]),) * 2}
+        try:
+            m = build(ast)
+            if m.errors():
+                continue
+            d2 = {k_: v for k_, v in d2.items() if k_ in {l.id for l in leaves_of(m)}}
+        except Exception:
+            continue
+        res.count("counting_node_with_integer_leaf")
+        bad = oracle_case(res, ast, d1, d2, rng)
+        if bad:
+            res.violation("oracle", bad["problem"] + f" on {m!r} d1={d1} d2={d2}", bad)
     n, failing, errs = run_case_shards("C07", "assume", "", "interp * prop * prop", "check_assume", cases)
     res.corr_cases += n; res.evaluations += n
     for e in errs:
